@@ -49,7 +49,10 @@ def x_lseg(s):
 
 def x_rseg(s):
     return ("<COMPU-SCALE>" + x_limit("LOWER-LIMIT", s["lo"]) + x_limit("UPPER-LIMIT", s["hi"]) +
-            x_coeffs(s["nums"], s["dens"]) + "</COMPU-SCALE>")
+            # (a constant denominator of 1 is left out for every other constant term: without COMPU-DENOMINATOR the
+            # function is a polynomial)
+            x_coeffs(s["nums"], [] if s["dens"] == [1] and isinstance(s["nums"][0], int) and s["nums"][0] % 2 == 0 else s["dens"]) +
+            "</COMPU-SCALE>")
 
 
 def x_compu(c):
